@@ -169,9 +169,12 @@ def run(ctx, rep) -> None:
                         if isinstance(c.func, ast.Attribute) and c.func.attr == "append" and c.args and isinstance(c.args[0], ast.Constant) and c.args[0].value is value:
                             out.append(c)
                 return out
-            ok_true = appends(tr.body, True)
+            # success is recorded where an exception of the routine skips it: after the call inside the try body, or in the
+            # try's `else:` clause (runs only when the body raised nothing)
+            in_else = appends(tr.orelse, True)
+            ok_true = appends(tr.body, True) + in_else
             ok_false = appends(h.body, False)
-            after_call = bool(ok_true) and ok_true[0].lineno > call.end_lineno and not appends(tr.body, False)
+            after_call = bool(ok_true) and (bool(in_else) or ok_true[0].lineno > call.end_lineno) and not appends(tr.body, False) and not appends(tr.orelse, False)
             rep.ob("C13.1", f"{ci.name}:success-recorded-after-call", len(ok_true) == 1 and after_call, fi.loc(tr), "`append(True)` must follow the routine call inside the try body (an exception then skips it)", sample=True)
             rep.ob("C13.1", f"{ci.name}:failure-recorded-in-handler", len(ok_false) == 1 and not appends(h.body, True), fi.loc(h), "handler must record exactly one failure")
             warns = [c for s in h.body for c in A.calls(s) if ast.unparse(c.func).endswith("logger.warning")]
